@@ -2,6 +2,7 @@
    Proofs/SymCoreClone.v. *)
 From PG Require Import Common.Tactics Model.SymCoreDefs Model.SymCoreOps Model.SymCoreSpec
      Proofs.SymCoreBase Proofs.SymCoreWF Proofs.SymCoreClone Proofs.SymCoreWFOps Proofs.SymCoreIds Proofs.SymCoreFrame Proofs.SymCoreC07.
+From PG Require Import Model.SymCoreC02 Proofs.SymCoreExtWF.
 From Coq Require Import NArith.
 
 (* What a clone step does: the copy [clone_at ...] of the node found at the position is appended as a new root; every
@@ -91,3 +92,16 @@ Theorem C07_independence_history : forall q ops st r t,
   nth_error (roots (run_ops q st ops)) r = Some (Live t).
 Proof. exact frame_history_WF. Qed.
 Print Assumptions C07_independence_history.
+
+(* The same over the whole list / dict surface: slice assignment, slice deletion, d | m and m | d of the C02 extension of the
+   model ([step2], [touched2]: the root addressed plus the roots values are handed from). *)
+Theorem C07_independence_full_surface : forall q st o r t,
+  WF st -> ~ In r (touched2 o) -> nth_error (roots st) r = Some (Live t) ->
+  nth_error (roots (fst (step2 q st o))) r = Some (Live t).
+Proof. exact frame2_WF. Qed.
+Print Assumptions C07_independence_full_surface.
+Theorem C07_independence_history_full_surface : forall q ops st r t,
+  WF st -> Forall (fun o => ~ In r (touched2 o)) ops -> nth_error (roots st) r = Some (Live t) ->
+  nth_error (roots (run_ops2 q st ops)) r = Some (Live t).
+Proof. exact frame2_history. Qed.
+Print Assumptions C07_independence_history_full_surface.
